@@ -162,3 +162,32 @@ package filesystem
 //gvc:  opt frame args
 //gvc:  ensures switched: result == nil && calls("SetConfig") == 1 ==> s.oh != nil && (bytes_eq(of, "sha256") == bytes_eq(field(s.oh, "plumbing.ObjectHasher.format"), "sha256")) && same_string(s.options.ObjectFormat, of)
 //gvc:end
+
+// The default stat-based cache (property C20: reading the index returns what
+// decoding the on-disk file returns, also after an external rewrite that
+// changes its size or modification time). A hit is answered only when the
+// file's size and modification instant -- second and nanosecond -- are the
+// ones the cached view was stored with; Set stores exactly what it is given.
+//gvc:func (*statIndexCache).Get
+//gvc:  props C20
+//gvc:  theory int
+//gvc:  opt coarse
+//gvc:  opt frame args
+//gvc:  ensures exact: result != nil ==> result == c.cached && fileSize == c.fileSize && spec_time_unix(modTime.wall, modTime.ext) == spec_time_unix(c.modTime.wall, c.modTime.ext) && spec_time_nsec(modTime.wall, modTime.ext) == spec_time_nsec(c.modTime.wall, c.modTime.ext)
+//gvc:end
+
+//gvc:func (*statIndexCache).Set
+//gvc:  props C20
+//gvc:  theory int
+//gvc:  opt coarse
+//gvc:  opt frame args
+//gvc:  ensures stored: c.cached == idx && c.fileSize == fileSize && c.modTime.wall == modTime.wall && c.modTime.ext == modTime.ext
+//gvc:end
+
+//gvc:func (*statIndexCache).Clear
+//gvc:  props C20
+//gvc:  theory int
+//gvc:  opt coarse
+//gvc:  opt frame args
+//gvc:  ensures cleared: c.cached == nil
+//gvc:end
